@@ -133,6 +133,24 @@ func (g *generator) generate(allowBacktracking bool) (dfa []int, backtrack []Che
 		}
 	}
 
+	// The end of input never goes away: a cycle of end-of-input transitions would never terminate.
+	for state := g.first; state != nil; state = state.next {
+		seen := map[int]bool{state.index: true}
+		for next := state.action[EOI]; next >= 0; next = g.states[next].action[EOI] {
+			if !seen[next] {
+				seen[next] = true
+				continue
+			}
+			for _, i := range g.states[next].set {
+				if inst := g.ins[i]; inst.consume.contains(EOI) && inst.trace.pattern != nil {
+					g.s.Add(inst.trace.pattern.Origin.SourceRange(), "{eoi} cannot be matched repeatedly: "+inst.String())
+					break
+				}
+			}
+			return nil, nil, g.s.Err()
+		}
+	}
+
 	// Adding backtracking states.
 	type checkpointKey struct {
 		targetState int
